@@ -8,6 +8,7 @@ SEM = "drv_sem"
 
 
 def run(ctx):
+    so_stats = {}
     # leg 1: the tracking code of ParserState (track / attempts) as modelled, against the real VM (error triples)
     run_vm_property(
         ctx, MODULES, "C08",
@@ -17,6 +18,35 @@ def run(ctx):
         assumptions=["the specification is evaluated on the call tree of the reference semantics (PestModel.RefTrace), independent of ParserState::track",
                      "rule names are compared as sorted lists (the VM's rule type is &str, ordered bytewise)"],
     )
+    # leg 1b: the same cases against the SPECIFICATION evaluated on the optimized rule set the VM actually runs
+    # (SO lines: specReport on the call tree of the reference semantics of ofOptimized(rules)); no lister caveat here
+    for fs in ("default", "extras"):
+        d = os.path.join(ctx.rundir, f"gen-{fs}")
+        ops, imp = read_lines(os.path.join(d, "ops.txt")), read_lines(os.path.join(d, "impl.txt"))
+        reqs, idx = [], []
+        for k, (o, i) in enumerate(zip(ops, imp)):
+            w = o.split(" ", 3)
+            if len(w) == 4 and w[0] == "V" and w[2] == "vm" and ",l_" in w[1] and "err" in i:
+                reqs.append(f"SO {1 if fs == 'extras' else 0} {w[3]}"); idx.append(k)
+        if not reqs:
+            continue
+        sd = os.path.join(ctx.rundir, f"so-{fs}"); os.makedirs(sd, exist_ok=True)
+        open(os.path.join(sd, "ops.txt"), "w").write("\n".join(reqs) + "\n")
+        okm, err = run_model(MODE, os.path.join(sd, "ops.txt"), os.path.join(sd, "model.txt"))
+        spec = read_lines(os.path.join(sd, "model.txt"))
+        bad, n = [], 0
+        for k, sp in zip(idx, spec):
+            a, b = imp[k].split(" | "), sp.split(" | ")
+            for j, (x, y) in enumerate(zip(a, b)):
+                if x.startswith("err"):
+                    n += 1
+                    if x != y and y not in ("fuel", "bad-op"):
+                        bad.append((split_case(ops[k], j), x, y))
+        so_stats[fs] = {"failing_parses_compared_with_specification": n, "differences": len(bad)}
+        if bad:
+            case, x, y = min(bad, key=lambda t: (len(t[0]), t[0]))
+            ctx.violation({"kind": "the failure report of Vm::parse is not the furthest-failure report the property specifies (specReport on the call tree of the reference semantics of the optimized rule set)",
+                           "features": fs, "case": case, "impl": x, "specification": y, "failing_inputs_in_run": len(bad)})
     # leg 2: the property's own statement evaluated by the model on the call tree, against the implementation
     lister_known = next((k for k in load_known() if k.get("id") == LISTER_ID and k.get("status") == "known"), None)
     for fs in ("default", "extras"):
@@ -58,6 +88,7 @@ def run(ctx):
     ev["violations"] = len(ctx.violations)
     ev["known_findings_hit"] = sorted(ctx.known_hits.keys())
     ev["wall_s"] = round(time.time() - ctx.t0, 2)
+    ev["coverage"]["distribution"]["specification_on_optimized_rules"] = so_stats
     for fs in ("default", "extras"):
         try:
             st = json.load(open(os.path.join(ctx.rundir, "spec-" + fs, "stats.json")))
